@@ -43,6 +43,11 @@ STRENGTHENED = {
     'C02_4': 'several evaluation calls on ONE object, checked against the object as built, control points compared bit-for-bit; rational objects with end weights != 1',
     'C01_7': '=caught by the pyx translator obligation only (no failing input); generator then extended: non-open knot vectors with arbitrary multiplicities, in particular the domain-end knot repeated inside the function range; library exceptions inside an oracle experiment count as failing inputs when model and implementation disagree',
     'C02_7': '=caught by the source translator obligation only (no failing input); generator then extended: affinely related bases in two directions evaluated with the SAME list/array object for both',
+    'C07_8': 'caught by C04, C10 and C11 from the start; C07 itself then extended: objects built from ONE basis instance (raw constructor, factory ball) split in one direction, and sibling pieces re-checked after an in-place op on one piece',
+    'C12_8': 'caught by C04, C10 and C11 from the start; C12 itself then extended: one partner built from ONE basis instance (raw, clone, exact scaling), all direction arguments',
+    'C13_8': 'caught by C09 (translator) from the start; C13 itself then extended: the same list object for two arguments / reused across calls, tuple and (int) ndarray arguments, caller arguments compared afterwards',
+    'C14_8': 'caught by C08, C10 and C12 from the start; C14 itself then extended: volume loft of surface sections periodic in v (and u) with mixed periodic continuity, periodic vs open',
+    'C19_8': '=not a C19 check (sub-tolerance knot spans are collapsed by the constructor before any file is written); caught by C10: first through the translator obligation only, then with failing inputs after accepted vectors with positive spans below the tolerance were added',
     'C16_3': '=caught, but without a failing input; oracle then extended: volumes with mixed orders (p,q,p) and full-degree nets; independent high-order quadrature oracle',
 }
 dm = os.path.join(V, 'DESIGN.md')
